@@ -37,9 +37,11 @@ pub enum T {
     /// synthetic page-aligned `fn() -> u32` exactly 128 MiB above the arena, so that the
     /// allocator's first hint is an occupied page holding foreign code
     PA = 10,
+    /// a second synthetic `fn() -> bool`, slot 4
+    B1 = 11,
 }
-pub const NT: usize = 11;
-pub const ALL_T: [T; NT] = [T::F0, T::F1, T::B0, T::G, T::C, T::A0, T::FS, T::TH, T::P0, T::P1, T::PA];
+pub const NT: usize = 12;
+pub const ALL_T: [T; NT] = [T::F0, T::F1, T::B0, T::G, T::C, T::A0, T::FS, T::TH, T::P0, T::P1, T::PA, T::B1];
 pub const PA_ADDR: u64 = ARENA + 0x800_0000;
 pub const PACKED: u64 = ARENA + 0xA00;
 
@@ -140,6 +142,7 @@ pub fn orig(t: T) -> u32 {
         T::P0 => 0x2000,
         T::P1 => 0x2001,
         T::PA => 0x3000,
+        T::B1 => 0x1004,
     }
 }
 
@@ -165,6 +168,8 @@ pub fn faked(t: T, k: K) -> u32 {
         (T::P0, K::RawA) => 0xA8,
         (T::P1, K::RawA) => 0xA9,
         (T::PA, K::RawA) => 0xAA,
+        (T::B1, K::BoolT) => 1,
+        (T::B1, K::BoolF) => 0,
         _ => panic!("harness: no such installation {t:?} {k:?}"),
     }
 }
@@ -174,7 +179,7 @@ pub fn valid(t: T, k: K) -> bool {
         (t, k),
         (T::F0, K::RawA | K::RawB | K::Fake | K::Unchecked)
             | (T::F1, K::RawA | K::Closure)
-            | (T::B0, K::BoolT | K::BoolF)
+            | (T::B0 | T::B1, K::BoolT | K::BoolF)
             | (T::G, K::RawA | K::Closure)
             | (T::C, K::RawA)
             | (T::A0, K::AsyncV1 | K::AsyncV2)
@@ -272,6 +277,7 @@ impl World {
             PACKED,
             PACKED + 8,
             PA_ADDR,
+            slot_addr(4),
         ];
         let mut w = World { addr, pre: Vec::new(), arena_pre: Vec::new(), with_fs };
         w.pre = ALL_T.iter().map(|&t| w.image(t)).collect();
@@ -297,7 +303,7 @@ impl World {
     /// Call the target the way a user would and return what came back (for A0 the awaited value).
     pub fn call(&self, t: T) -> u32 {
         match t {
-            T::F0 | T::F1 | T::B0 | T::FS | T::TH | T::P0 | T::P1 | T::PA => unsafe { arena::call_u32(self.addr[t as usize]) },
+            T::F0 | T::F1 | T::B0 | T::B1 | T::FS | T::TH | T::P0 | T::P1 | T::PA => unsafe { arena::call_u32(self.addr[t as usize]) },
             T::G => g(5),
             T::C => unsafe {
                 let f: AtoiFn = std::hint::black_box(libc::atoi as AtoiFn);
@@ -363,8 +369,8 @@ pub fn install(w: &World, injector: &mut InjectorPP, t: T, k: K) {
         (T::F1, K::Closure) => injector
             .when_called(inj::func!(as_fn0(a), fn() -> u32))
             .will_execute_raw(inj::closure!(|| -> u32 { std::hint::black_box(0xC1) }, fn() -> u32)),
-        (T::B0, K::BoolT) => injector.when_called(inj::func!(as_fnb(a), fn() -> bool)).will_return_boolean(true),
-        (T::B0, K::BoolF) => injector.when_called(inj::func!(as_fnb(a), fn() -> bool)).will_return_boolean(false),
+        (T::B0 | T::B1, K::BoolT) => injector.when_called(inj::func!(as_fnb(a), fn() -> bool)).will_return_boolean(true),
+        (T::B0 | T::B1, K::BoolF) => injector.when_called(inj::func!(as_fnb(a), fn() -> bool)).will_return_boolean(false),
         (T::G, K::RawA) => injector
             .when_called(inj::func!(fn(g)(u32) -> u32))
             .will_execute_raw(inj::func!(fn(fk_g_a)(u32) -> u32)),
